@@ -163,6 +163,8 @@ namespace vt
       long long case_id = 0;
       bool tracing = true;          // false: only results are wanted
       bool in_case = false;
+      long long acc = 0;            // accesses reported by the TAO_PEGTL_VERIF hook in the current case
+      int oob = 0;                  // of which outside the window
       bool by_bytes = false;        // current case runs on an incremental input: offsets come from the byte counters
       long long next_sid = 0;       // serial numbers of instrumented state objects
       int fuel_cases = 0;           // cases of the current bundle that ran out of fuel
@@ -186,6 +188,30 @@ namespace vt
       int vid;
    };
 
+   // ------------------------------------------------------------------ access hook (C03)
+}  // namespace vt
+#if defined( TAO_PEGTL_VERIF )
+// called by memory_input / buffer_input for every peek (kind 0: offset) and bump (kind 1: count) with the number of
+// bytes available in the input's current window (which may be a lowered end, or the inner input of rematch)
+extern "C" inline void tao_pegtl_verif_access( int kind, std::size_t amount, std::size_t available ) noexcept
+{
+   vt::Global& G = vt::g();
+   if( !G.in_case )
+      return;
+   ++G.acc;
+   const bool bad = ( kind == 0 ) ? ( amount >= available ) : ( amount > available );
+   if( bad && G.oob++ < 5 && G.tracing ) {
+      vt::Writer& w = G.tr;
+      w.s( "{\"k\":\"oob\"" );
+      w.kv( "kind", kind );
+      w.kv( "n", (long long)amount );
+      w.kv( "avail", (long long)( available > ( std::size_t( 1 ) << 40 ) ? -1 : (long long)available ) );
+      w.s( "}\n" );
+   }
+}
+#endif
+namespace vt
+{
    // ------------------------------------------------------------------ registry / extraction
 
    inline std::string cxx_name( const std::type_info& ti )
@@ -1178,6 +1204,8 @@ namespace vt
       G.events = 0;
       G.depth = 0;
       G.by_bytes = false;
+      G.acc = 0;
+      G.oob = 0;
       G.next_sid = 0;
       G.in_case = true;
       ++G.case_id;
@@ -1221,6 +1249,7 @@ namespace vt
       w.str( "src", "" );
       w.str( "msg", "" );
       w.str( "what", "" );
+      w.kv( "acc", G.acc );
       w.s( "}\n" );
       w.maybe_flush();
       G.in_case = false;
@@ -1247,6 +1276,7 @@ namespace vt
       w.str( "src", x.src );
       w.str( "msg", x.msg );
       w.str( "what", x.what );
+      w.kv( "acc", G.acc );
       w.s( "}\n" );
       w.maybe_flush();
       G.in_case = false;
@@ -1390,6 +1420,36 @@ namespace vt
          const XInfo x = classify_current();
          end_case_exc( x, in );
       }
+   }
+
+   // run one case on a slice: the logical end lies inside a larger buffer whose remaining bytes would extend a match
+   template< typename Rule, template< typename... > class Action, template< typename... > class Control, pegtl::apply_mode A, pegtl::rewind_mode M, pegtl::tracking_mode T, typename Eol >
+   void run_slice_case( CaseCfg c, const std::string& data, const std::string& filler )
+   {
+      describe< Rule >();
+      c.root = rid< Rule >();
+      c.A = ( A == pegtl::apply_mode::action ) ? 1 : 0;
+      c.M = ( M == pegtl::rewind_mode::required ) ? 1 : 0;
+      c.af = afam_of< Action >;
+      c.cf = Control< Rule >::vcfam;
+      c.trk = ( T == pegtl::tracking_mode::eager ) ? 0 : 1;
+      c.extra = 3;   // slice
+      const std::string all = data + filler;
+      char* blk = static_cast< char* >( std::malloc( all.size() ? all.size() : 1 ) );
+      std::memcpy( blk, all.data(), all.size() );
+      begin_case( c, blk, data.size() );
+      {
+         pegtl::memory_input< T, Eol, std::string > in( blk, blk + data.size(), "src" );
+         try {
+            const bool res = pegtl::parse< Rule, Action, Control, A, M >( in );
+            end_case_ok( res, in );
+         }
+         catch( ... ) {
+            const XInfo x = classify_current();
+            end_case_exc( x, in );
+         }
+      }
+      std::free( blk );
    }
 
    // enumerate all strings of length 0..maxlen over alphabet
